@@ -66,10 +66,51 @@ func nibScalars(thorough bool) [][]byte {
 	return out
 }
 
+// carryRunScalars: a run of one digit value with the digit directly below it chosen to send (or
+// not send) a carry into the run - the patterns on which a signed-digit recoding that handles
+// carries limb by limb (56-bit, 30-bit) or with a bias trick differs from the serial one. Runs
+// start at every nibble; lengths around one limb of either layout, and to the top.
+func carryRunScalars(thorough bool) [][]byte {
+	var out [][]byte
+	set := func(b []byte, pos int, v byte) {
+		if pos%2 == 0 {
+			b[pos/2] = b[pos/2]&0xf0 | v
+		} else {
+			b[pos/2] = b[pos/2]&0x0f | v<<4
+		}
+	}
+	lens := []int{7, 8, 14, 15}
+	if thorough {
+		lens = []int{6, 7, 8, 9, 13, 14, 15, 16, 28}
+	}
+	for _, rv := range []byte{7, 8, 15, 0} {
+		for _, below := range []byte{8, 15, 7} {
+			for _, fill := range []byte{0, 0xa} {
+				for start := 1; start < 64; start++ {
+					ls := append([]int{}, lens...)
+					ls = append(ls, 64-start)
+					for _, l := range ls {
+						if start+l > 64 {
+							continue
+						}
+						b := bytes.Repeat([]byte{fill | fill<<4}, 32)
+						for p := start; p < start+l; p++ {
+							set(b, p, rv)
+						}
+						set(b, start-1, below)
+						out = append(out, b)
+					}
+				}
+			}
+		}
+	}
+	return out
+}
+
 func le32(x *big.Int) []byte { return ref.ToLE(new(big.Int).Mod(x, pow2(256)), 32) }
 
 func jobC11(c *rt.Ctx) {
-	c.Require("fast/nib", "fast/boundary", "fast/clamp-bits", "generic/value", "generic/low-order-error", "generic/noncanonical-u", "chain")
+	c.Require("fast/nib", "fast/carry-run", "fast/boundary", "fast/clamp-bits", "generic/value", "generic/low-order-error", "generic/noncanonical-u", "chain")
 	nine := make([]byte, 32)
 	nine[0] = 9
 	checkFast := func(class string, s []byte) {
@@ -112,6 +153,12 @@ func jobC11(c *rt.Ctx) {
 			c.Violation(fmt.Sprintf("C11 fast-path %s class=%s", which, class), fmt.Sprintf("%s differs from RFC 7748 X25519 for scalar %x", which, s),
 				map[string]interface{}{"scalar": ref.Hex(s), "expected": ref.Hex(want), "X25519_Basepoint": ref.Hex(o1), "ScalarBaseMult": ref.Hex(a1[:]), "ScalarMult_9": ref.Hex(a2[:]), "X25519_copy9": ref.Hex(o2), "err1": fmt.Sprint(e1), "err2": fmt.Sprint(e2)})
 		}
+	}
+	for _, s := range carryRunScalars(c.Thorough()) {
+		if !c.Take() {
+			continue
+		}
+		checkFast("fast/carry-run", s)
 	}
 	for _, s := range nibScalars(c.Thorough()) {
 		if !c.Take() {
